@@ -13,7 +13,7 @@ ASSUMPTIONS = ["BIE1 per Electrum: S = compressed(a*B); SHA-512(S) -> iv|kE|kM; 
 NSHARDS = {"quick": 32, "thorough": 64}
 BUDGET_S = {"quick": 200, "thorough": 1800}
 MIN_HITS = {
-    'quick': {"enc": 262, "exclude": 35, "ephemeral": 64, "flip": 194070, "flip_pub": 59928, "flip_mac": 67072, "flip_body": 58686, "wrong_key": 262, "len>=16384": 2},
+    'quick': {"enc": 266, "exclude": 39, "ephemeral": 64, "flip": 195539, "flip_pub": 59928, "flip_mac": 68096, "flip_body": 59003, "wrong_key": 266, "len>=16384": 2},
     'thorough': {"enc": 15504, "exclude": 840, "ephemeral": 4608, "flip": 11715673, "wrong_key": 15504, "len>=16384": 48},
 }
 EDGE = [1, 2, 3, (ec.N - 1) // 2, (ec.N + 1) // 2, ec.N - 2, ec.N - 1]
@@ -69,6 +69,22 @@ def cases(ctx):
                 yield {"k": "enc", "a": "%064x" % a, "b": "%064x" % b, "ca": r.random() < 0.5, "cb": r.random() < 0.5, "msg": gen.rbytes(r, L).hex(), "exclude": exclude, "mode": "encrypt", "other": "%064x" % r.randrange(1, ec.N), "seed": r.getrandbits(30)}
     if S == 0:
         ctx.exhaustive.append("every message length 0..64 x both inclusion modes; all single-bit flips of each serialised ciphertext with message <= 48 bytes")
+    # exclusion-mode ciphertexts whose BODY begins with the encoding of a valid compressed public key (crafted through the reference:
+    # choose the first ciphertext blocks, decrypt them to find the message)
+    for i in range(12 if t else 1):
+        if not t and S % 4:
+            break
+        a, b = r.randrange(1, ec.N), r.randrange(1, ec.N)
+        iv, ke, km = ref_keys(a, ec.mul_g(b))
+        want = ec.ser(ec.mul_g(r.randrange(1, ec.N)), True) + gen.rbytes(r, 15)  # 48 bytes = three blocks
+        rk = aes.expand_key(ke)
+        prev, m = iv, b""
+        for j in range(0, 48, 16):
+            blk = want[j : j + 16]
+            m += bytes(x ^ y for x, y in zip(aes.dec_block(rk, blk), prev))
+            prev = blk
+        m += gen.rbytes(r, r.choice([0, 5, 16]))
+        yield {"k": "enc", "a": "%064x" % a, "b": "%064x" % b, "ca": True, "cb": True, "msg": m.hex(), "exclude": True, "mode": "encrypt", "other": "%064x" % r.randrange(1, ec.N), "seed": r.getrandbits(30), "crafted": True}
     for i in range(120 if t else 4):
         a, b = r.randrange(1, ec.N), r.randrange(1, ec.N)
         base = {"k": "enc", "a": "%064x" % a, "b": "%064x" % b, "ca": r.random() < 0.5, "cb": r.random() < 0.5, "msg": gen.rbytes(r, r.choice([0, 5, 16, 31, 32, 70])).hex(), "exclude": False, "other": "%064x" % r.randrange(1, ec.N), "seed": r.getrandbits(30)}
@@ -90,6 +106,8 @@ def judge(ctx, case):
     ctx.hit("mode_" + mode)
     if exclude:
         ctx.hit("exclude")
+    if case.get("crafted"):
+        ctx.hit("body_starts_with_a_valid_public_key")
     if len(msg) >= 16384:
         ctx.hit("len>=16384")
     if mode == "self":
@@ -120,9 +138,9 @@ def judge(ctx, case):
     if o.get("direct_decrypt", {}).get("ok") != case["msg"]:
         ctx.viol("decrypt(encrypt(m)) != m before serialisation (%s)" % mode, {"resp": str(o.get("direct_decrypt"))[:200]})
     # the in-memory ciphertext object (never serialised) must not decrypt under a wrong recipient or sender key either
-    for fld, what in (("direct_decrypt_wrong_recipient", "a wrong recipient key"), ("direct_decrypt_wrong_recipient_via_key", "a wrong recipient key (PrivateKey::decrypt_message)"), ("direct_decrypt_wrong_sender", "a wrong sender key")):
+    for fld, what in (("direct_decrypt_wrong_recipient", "a wrong recipient key"), ("direct_decrypt_wrong_recipient_via_key", "a wrong recipient key (PrivateKey::decrypt_message)"), ("direct_decrypt_wrong_sender", "a wrong sender key"), ("direct_decrypt_wrong_sender_via_key", "a wrong sender key (PrivateKey::decrypt_message)")):
         if fld in o and int(case["other"], 16) not in (a, b):
-            if fld == "direct_decrypt_wrong_sender" and mode == "ephemeral":
+            if fld.startswith("direct_decrypt_wrong_sender") and mode == "ephemeral":
                 continue
             ctx.ev()
             ctx.hit("wrong_key_in_memory")
@@ -140,6 +158,14 @@ def judge(ctx, case):
             ctx.viol("decrypt(parse(serialise(encrypt(m)))) != m (%s, %s)" % (mode, "key excluded" if exclude else "key included"), {"resp": str(d.get("ok", d))[:200]})
         elif d["ok"]["reser"] != o["bytes"]:
             ctx.viol("parsed ciphertext re-serialises differently", {})
+    # wrong sender key supplied explicitly after the serialise / parse trip (both decrypt entry points)
+    if mode != "ephemeral" and int(case["other"], 16) not in (a, b):
+        for via_key in (False, True):
+            d = ctx.call(dict(op="ecies_dec", bytes=o["bytes"], has_pub=has_pub, key="%064x" % b, via_key=via_key, sender_pub=ec.ser(ec.mul_g(int(case["other"], 16)), True).hex()))
+            ctx.ev()
+            ctx.hit("wrong_sender_after_parse")
+            if d.get("ok", {}).get("stage") == "done":
+                ctx.viol("decryption with a wrong sender key returns plaintext (%s, %s)" % ("PrivateKey::decrypt_message" if via_key else "ECIES::decrypt", "key included" if has_pub else "key excluded"), {})
     # wrong recipient key / wrong sender key
     ctx.hit("wrong_key")
     wr = dict(op="ecies_dec", bytes=o["bytes"], has_pub=has_pub, key=case["other"])
